@@ -46,7 +46,8 @@ MUTANTS = [
     {"id": "c14_data_reassigned", "prop": "C14", "needs": "second run() on the same object",
      "edits": [(P, "        data = self.pre_process_data(self.data)\n        regex_n", "        data = self.data = self.pre_process_data(self.data)\n        regex_n"),
                (P, "        data = data.decode(\"utf-8\")\n", "        data = data.decode(\"utf-8\") if isinstance(data, bytes) else data\n")]},
-    {"id": "c14_output_class_level_result", "prop": "C14", "needs": "a second run() in the same process (any object): Output accumulators moved to class level",
+    {"id": "c14_output_class_level_result", "prop": "C14", "tests_may_fail": True,
+     "needs": "a second run() in the same process (any object): Output accumulators moved to class level (the repository's own tests notice it too: kept only as a sanity case)",
      "edits": [(OC, "class Output:\n    \"\"\"class implements logic to format final output after parser\"\"\"\n",
                 "class Output:\n    \"\"\"class implements logic to format final output after parser\"\"\"\n\n    final_result: List[Dict] = []\n    tables_dict: Dict = {}\n"),
                (OC, "        self.final_result = []\n        self.tables_dict = {}\n", "")]},
